@@ -6,7 +6,7 @@ tier = 'quick'
 names = sys.argv[1:]
 if names and names[0] in ('quick','thorough'):
     tier = names[0]; names = names[1:]
-sl = [s for s in slices.all_slices(tier) if s['name'] in names or any(s['name'].startswith(n) for n in names if n.endswith('/'))]
+sl = [s for s in slices.all_slices(tier) if s['name'].split('#')[0] in names or s['name'] in names or any(s['name'].startswith(n) for n in names if n.endswith('/'))]
 from smir import setup as ssetup
 mir,_=ssetup.dump_mir('/repo'); open('/verif/work/mir.txt','w').write(mir)
 t=time.time()
